@@ -231,6 +231,12 @@ func c17CheckPrev(cs *drv.Case) {
 // c17Stream: every BufferReader operation on a valid stream cut at `cut` with source error e.
 func c17Stream(cs *drv.Case, vals []cval, stream []byte, cut int, e error, withData bool, sched int) {
 	src := &doubles.Source{Data: stream, Len: len(stream), ErrAt: cut, Err: e, WithData: withData, Sched: sched, R: cs.R, ZeroMax: 1, Budget: 10*len(stream) + 100000}
+	if !withData && cs.R.Intn(3) == 0 {
+		// empty reads between the last data and the error (fewer than the 100 that mean "no progress")
+		src.ZerosBeforeErr = []int{1, 50, 97, 98, 99}[cs.R.Intn(5)]
+		src.ZeroMax = 0
+		cs.C.Obs("stream failures after a run of empty reads", 1)
+	}
 	if e != io.EOF && cut%3 == 0 {
 		src.AfterErr = io.EOF // the source reports its error once (maybe with its last bytes) and plain EOF afterwards
 	}
